@@ -172,6 +172,22 @@ pub fn run(tier: &str, seed: u64, replay: Option<String>) -> i32 {
         js.retain(|j| matches!(j.edit, Edit::DelLine { .. } | Edit::DupLine { .. } | Edit::RenameQuoted { .. } | Edit::NumToText { .. } | Edit::BlockRemoved { .. }));
         line_jobs.extend(js);
     }
+    // generated projects: a space that keeps no enclosure of its own (HULC defines a partition in
+    // only one of the two spaces it separates, so other walls may still name it as NEXT-TO)
+    for f in &files {
+        let lines = diskfault::split_lines(&f.text);
+        for b in diskfault::scan_blocks(&lines).iter().filter(|b| b.btype == "SPACE") {
+            line_jobs.push(DJob {
+                file: f.rel.clone(),
+                edit: Edit::SpaceEmptied { line: b.start },
+                cell: format!("{}|SPACE|space_emptied|{}", f.kind.as_str(), f.rel),
+                level: 1,
+                e2e: false,
+                closure: true,
+                cost: f.text.len(),
+            });
+        }
+    }
     let line_picked = diskrun::stratified(line_jobs, if thorough { 6 } else { 1 }, &mut rng);
     let n_line = line_picked.len();
     jobs.extend(line_picked);
